@@ -117,6 +117,96 @@ def rule_splitsafe(ctx):
     yield ob("C10.SPLITSAFE", fj, "chord.join:validates-output", good, "join() validates exactly the label it returns, unconditionally")
 
 
+def rule_joinform(ctx):
+    """join() emits its arguments unchanged: root [':' quality] ['(' ','.join(extensions) ')'] ['/' bass]."""
+    R = "C10.JOINFORM"
+    f = ctx.program.func("chord.join", R)
+    s = ctx.S.get(f.qual)
+    need(len(s.returns) == 1, R, "chord.join: single return expected")
+    t = s.returns[0].term
+    pieces = []
+
+    def rec(x):
+        if x.op == "ite":
+            rec(x.a[1])
+            rec(x.a[2])
+        elif x.op == "bin" and x.a[0] == "+":
+            rec(x.a[1])
+            rec(x.a[2])
+        else:
+            pieces.append(x)
+
+    rec(t)
+    seenp = set()
+    bad = []
+    for p_ in pieces:
+        if p_.op == "param":
+            seenp.add(p_.a[0])
+        elif p_.op == "bin" and p_.a[0] == "%" and p_.a[1].op == "const":
+            arg = p_.a[2]
+            fmt = p_.a[1].a[0]
+            if arg.op == "param":
+                seenp.add(arg.a[0])
+                exp = {"quality": ":%s", "bass": "/%s"}.get(arg.a[0])
+                if exp is not None and fmt != exp:
+                    bad.append("%s is emitted with format %r" % (arg.a[0], fmt))
+            elif arg.op == "call" and call_name(arg) == ".join" and tm.is_const(arg.a[1][0], ",") and arg.a[1][1].op == "param":
+                seenp.add(arg.a[1][1].a[0])
+                if fmt != "(%s)":
+                    bad.append("extensions are emitted with format %r" % fmt)
+            else:
+                bad.append("a component is transformed before being emitted: %s" % tm.show(arg, 3))
+        else:
+            bad.append("unexpected piece %s" % tm.show(p_, 3))
+    good = not bad and seenp == {"chord_root", "quality", "extensions", "bass"}
+    yield ob(R, f, "chord.join:components", good, "label = chord_root [+ ':' + quality] [+ '(' + ','.join(extensions) + ')'] [+ '/' + bass], each argument emitted unchanged" if good else "; ".join(bad) or "components %s" % sorted(seenp))
+    # the conditions under which pieces are emitted test the arguments themselves
+    conds = set()
+
+    def crec(x):
+        if x.op == "ite":
+            conds.add(x.a[0])
+            crec(x.a[1])
+            crec(x.a[2])
+        elif x.op == "bin":
+            crec(x.a[1])
+            crec(x.a[2])
+
+    crec(t)
+    okc = all(_join_cond_ok(c) for c in conds) and len(conds) == 3
+    yield ob(R, f, "chord.join:conditions", okc, "':quality' is emitted iff quality or extensions, '(...)' iff extensions, '/bass' iff bass and bass != '1' (%s)" % "; ".join(tm.show(c, 3) for c in conds))
+
+
+def _join_cond_ok(c):
+    if c.op == "param":
+        return c.a[0] == "extensions"
+    if c.op == "bool" and c.a[0] == "or":
+        return {x.a[0] if x.op == "param" else None for x in c.a[1:]} == {"quality", "extensions"}
+    if c.op == "bool" and c.a[0] == "and":
+        its = c.a[1:]
+        return len(its) == 2 and its[0].op == "param" and its[0].a[0] == "bass" and its[1].op == "cmp" and its[1].a[0] == "!=" and {tm.show(its[1].a[1], 1), tm.show(its[1].a[2], 1)} == {"bass", "'1'"}
+    return False
+
+
+def rule_tablesafe(ctx):
+    """No function of the label pipeline writes through a module-level chord table."""
+    from .c15 import get_alias
+
+    A = get_alias(ctx)
+    n = 0
+    for q in reachable(ctx, PIPELINE):
+        f = ctx.program.func(q)
+        probs = []
+        node = None
+        for m, roots in A.direct_mutations(f):
+            for r in roots:
+                if r[0] == "g":
+                    probs.append("writes %s in place (%s)" % (r[1], m.how))
+                    node = m.node
+        n += 1
+        yield ob("C10.TABLESAFE", f, "%s:tables" % q, not probs, "; ".join(probs) if probs else "no in-place write reaches a module-level table (QUALITIES, EXTENDED_QUALITY_REDUX, sentinels)", node=node)
+
+
 PIPELINE = ["chord.validate_chord_label", "chord.split", "chord.join", "chord.encode", "chord.encode_many"]
 
 
@@ -347,4 +437,6 @@ RULES = [
     ("C10.EXC", 9, rule_exc),
     ("C10.TABLES", 75, rule_tables),
     ("C10.ENCODEPOST", 9, rule_encodepost),
+    ("C10.JOINFORM", 2, rule_joinform),
+    ("C10.TABLESAFE", 9, rule_tablesafe),
 ]
